@@ -72,10 +72,19 @@ def run_shard(spec, acc):
                                 variants.append("reboot")
                             if (thorough and j < 2) or rng.random() < 0.2:
                                 variants.append("vbetween")
+                            if j == 0 and fu.name != "uiHeartbeat.hbmode" and \
+                                    (thorough or rng.random() < 0.3):
+                                # (hbmode: the follow-up's own exchange count depends on
+                                # the mode the device is left in, so the learned length of
+                                # the bring-up would not apply)
+                                variants.append("rebootlate:%d:%s" % (
+                                    rng.randrange(3),
+                                    rng.choice(["timeout", "timeout", "read_error",
+                                                "write_error"])))
                             if thorough or rng.random() < 0.25:
                                 variants.append("double:%d:%s" % (
                                     rng.randrange(1, 4),
-                                    rng.choice(["write_error", "read_error"])))
+                                    rng.choice(["write_error", "read_error", "timeout"])))
                             for var in variants:
                                 run_case(acc, {"v1": v1, "shape": shape.name, "k": k,
                                                "kind": kind, "fu": fu.name, "j": j,
@@ -83,6 +92,35 @@ def run_shard(spec, acc):
 
 
 _base_cache = {}
+_reboot_cache = {}
+
+
+def reboot_bringup_len(shape, fu, v1):
+    """number of exchanges a fault-free repair through the bootloader takes before the
+    follow-up command's own exchanges (learned by running it once)"""
+    from ..stack import Stack
+    key = (fu.name, v1)
+    if key not in _reboot_cache:
+        dev = fl.make_device(fu)
+        n = None
+        with Stack(dev, version_one=v1) as s:
+            s.initialize()
+            s.bus.arm({0: Fault("read_error")})
+            s.request({"command": "getPubKey", "version": 1 if v1 else 5,
+                       "keyId": "m/44'/0'/0'/0/0"})
+            s.bus.arm({})
+            dev.mode = MODE_BOOTLOADER
+            dev.unlocked = False
+            dev.pending_link = None
+            if fu.post and fu.name != "uiHeartbeat.hbmode":
+                fu.post(dev)
+            mark = len(s.bus.events)
+            r, e, _ = s.request(fu.request)
+            if e is None and isinstance(r, dict) and \
+                    r.get("errorcode") == baseline(fu)[2].get("errorcode"):
+                n = len(s.bus.apdus(mark)) - baseline(fu)[0]
+        _reboot_cache[key] = n
+    return _reboot_cache[key]
 
 
 def baseline(shape):
@@ -159,7 +197,7 @@ def run_case(acc, c, roles=None):
         dev.adv_policy = {}
         if fu.post and fu.name != "uiHeartbeat.hbmode":
             fu.post(dev)
-        if c["variant"] == "reboot":
+        if c["variant"] == "reboot" or c["variant"].startswith("rebootlate"):
             dev.mode = MODE_BOOTLOADER
             dev.unlocked = False
         old_handle = s.bus.handle_seq
@@ -197,6 +235,17 @@ def run_case(acc, c, roles=None):
         if c["variant"].startswith("double"):
             _, m, dk = c["variant"].split(":")
             plan = {int(m): Fault(dk)}
+        if c["variant"].startswith("rebootlate"):
+            # the repair goes through the bootloader (unlock, open the signer, reconnect);
+            # one of the last three bring-up exchanges (mode, version, parameters - after
+            # the signer was opened) then fails: the repair did not complete
+            _, j, dk = c["variant"].split(":")
+            nb = reboot_bringup_len(shape, fu, v1)
+            if nb is None:
+                acc.count("rebootlate_skipped")
+                return
+            plan = {nb - 3 + int(j): Fault(dk)}
+            acc.count("faults_late_in_repair_through_bootloader")
         s.bus.arm(plan)
         mark = len(s.bus.events)
         r2, e2, _ = s.request(fu.request)
@@ -232,6 +281,8 @@ def run_case(acc, c, roles=None):
             if r2["errorcode"] != want:
                 return bad("fault-during-repair-not-device-error:%s" % fu.command, reply=r2)
             cmd_roles = [r for r in got_roles if r not in ("onboard", "mode", "params", "none")]
+            if c["variant"].startswith("rebootlate"):
+                cmd_roles = []      # unlock / exit exchanges legitimately precede the fault
             if cmd_roles and fu.command not in ("blockchainParameters",):
                 return bad("command-apdu-after-failed-repair:%s" % fu.command, roles=got_roles)
             s.bus.arm({})
